@@ -23,6 +23,7 @@ package tchannel
 import (
 	"bufio"
 	"encoding/json"
+	"fmt"
 	"io"
 	"io/ioutil"
 
@@ -105,8 +106,34 @@ func (r ArgReadHelper) ReadJSON(data interface{}) error {
 		}
 
 		d := json.NewDecoder(reader)
-		return d.Decode(data)
+		if err := d.Decode(data); err != nil {
+			return err
+		}
+		// json.Encoder ends every value with a newline. The decoder stops at the end of the
+		// value, so when a read of the underlying stream ends exactly there (a value of
+		// 4096 bytes fills the bufio.Reader) the newline has not been read yet and the
+		// emptiness check in read() would report it as unexpected bytes. Skip white space
+		// that follows the value.
+		return skipJSONWhitespace(reader)
 	})
+}
+
+// skipJSONWhitespace reads r to its end and fails on anything that is not JSON white space.
+func skipJSONWhitespace(r *bufio.Reader) error {
+	for {
+		b, err := r.ReadByte()
+		if err == io.EOF {
+			return nil
+		}
+		if err != nil {
+			return err
+		}
+		switch b {
+		case ' ', '\t', '\r', '\n':
+		default:
+			return fmt.Errorf("found unexpected byte %#x after JSON value", b)
+		}
+	}
 }
 
 // ArgWriteHelper providers a simpler interface to writing arguments.
